@@ -65,6 +65,7 @@ Diverges == Ev.op \in ClientOps /\ (Design # Post \/ Ev.ret.k \in {"raise", "exi
 
 (* ---- naming the failing clause and the abstract features of the step ---- *)
 BadDir(P(_)) == CHOOSE d \in Dirs : P(d)
+RhsmTag(s)   == IF HasRhsm(s) THEN s.rhsm ELSE "absent"
 DirTag(s)    == IF Exists(s, "main") THEN "maindir=present" ELSE "maindir=absent"
 Diagnose ==
     LET a == A(Ev)  t == Post IN
@@ -84,9 +85,9 @@ Diagnose ==
          IN "NotFollowed:" \o a.op \o ":" \o m \o "=" \o MarkOf(st, m)[d] \o
             ":target-live=" \o t.tgt[d][m].live \o ":target-dead=" \o t.tgt[d][m].dead)
     ELSE IF ~IdCanonical(st, a, t) THEN
-        "IdCanonical:" \o a.op \o ":returned=" \o a.ret.k \o ":file=" \o st.idf.form
+        "IdCanonical:" \o a.op \o ":returned=" \o a.ret.k \o ":file=" \o st.idf.form \o ":rhsm=" \o RhsmTag(st)
     ELSE IF ~IdStable(st, a, t) THEN
-        "IdStable:" \o DirTag(st) \o ":rhsm=" \o (IF st.rhsm THEN "present" ELSE "absent") \o
+        "IdStable:" \o DirTag(st) \o ":rhsm=" \o RhsmTag(st) \o
         ":file=" \o st.idf.form \o ":established-by=" \o curBy
     ELSE IF ~ReadDoesNotRewrite(st, a, t) THEN
         "ReadDoesNotRewrite:file=" \o st.idf.form \o ":after=" \o t.idf.form
